@@ -255,12 +255,17 @@ func (s *AdminOp) ProcessAdminOP(cmd *agtypes.AdminOPCmd, app AdminApp) error {
 func (s *AdminOp) CheckMajor23(cmd *agtypes.AdminOPCmd) bool {
 	msg := cmd.Msg
 	var major23 int64
+	counted := make(map[string]struct{}) // every validator is counted once
 	for _, sig := range cmd.SInfos {
 		sigPubKey := crypto.SetNodePubkey(sig.PubKey)
 		_, validator := (*s.validators).GetByAddress(sigPubKey.Address())
 		if validator != nil && validator.VotingPower > 0 {
+			if _, dup := counted[string(validator.Address)]; dup {
+				continue
+			}
 			sig64 := crypto.SetNodeSignature(sig.Signature)
 			if sigPubKey.VerifyBytes(msg, sig64) {
+				counted[string(validator.Address)] = struct{}{}
 				major23 += validator.VotingPower
 			} else {
 				log.Info("check major 2/3", zap.String("vote nil", fmt.Sprintf("sig=%X;pubkey=%X", sig.Signature, sigPubKey.KeyString())))
